@@ -31,6 +31,15 @@ type fval struct {
 	// a composite value read from an immutable package-level table (consteval value), or a pointer to one
 	cv    Val
 	cvptr Val
+	// iterator over an immutable map table (range over a map); reverse visits the entries last to first
+	iter *foldIter
+	// values captured by a closure (fn is the closure's function)
+	bind []fval
+}
+
+type foldIter struct {
+	entries []KV
+	pos     int
 }
 
 type faddr struct {
@@ -39,7 +48,7 @@ type faddr struct {
 }
 
 func (v fval) known() bool {
-	return v.k != nil || v.fn != nil || v.isNil || v.tuple != nil || v.fields != nil || v.addr != nil || v.cv != nil || v.cvptr != nil
+	return v.k != nil || v.fn != nil || v.isNil || v.tuple != nil || v.fields != nil || v.addr != nil || v.cv != nil || v.cvptr != nil || v.iter != nil
 }
 
 // structFval builds a struct value from a nested path map, e.g. {"Rat.Num": 0}.
@@ -93,6 +102,10 @@ type folder struct {
 	hook func(in ssa.Instruction, val func(ssa.Value) fval) bool
 	// invoke, when set, gives the result of interface method calls (at any depth); ok=false leaves the result unknown.
 	invoke func(call *ssa.Call, args []fval) (fval, bool)
+	// reverseMaps makes ranges over map tables visit the entries in reverse literal order (Go's order is unspecified:
+	// a caller that folds once with and once without it and gets the same answer has shown order independence for that input)
+	reverseMaps bool
+	sawMapRange bool
 }
 
 var errStopped = fmt.Errorf("stopped by hook")
@@ -101,6 +114,12 @@ func (c *Ctx) newFolder() *folder { return &folder{c: c} }
 
 // foldCall folds fn with the given argument values (⊤ allowed). free vars are ⊤.
 func (f *folder) foldCall(fn *ssa.Function, args []fval) (fval, error) {
+	return f.foldCallEnv(fn, args, nil, nil)
+}
+
+// foldCallEnv: as foldCall, for a closure: bind gives its captured values and mem is the memory of the function that
+// created it (captured variables are shared with it).
+func (f *folder) foldCallEnv(fn *ssa.Function, args []fval, bind []fval, shared map[*ssa.Alloc]fval) (fval, error) {
 	if fn == nil {
 		return top, fmt.Errorf("nil function")
 	}
@@ -117,9 +136,17 @@ func (f *folder) foldCall(fn *ssa.Function, args []fval) (fval, error) {
 	}
 	env := map[ssa.Value]fval{}
 	mem := map[*ssa.Alloc]fval{}
+	if shared != nil {
+		mem = shared
+	}
 	for i, p := range fn.Params {
 		if i < len(args) {
 			env[p] = args[i]
+		}
+	}
+	for i, fv := range fn.FreeVars {
+		if i < len(bind) {
+			env[fv] = bind[i]
 		}
 	}
 	var prev *ssa.BasicBlock
@@ -298,7 +325,11 @@ func (f *folder) evalInstr(env map[ssa.Value]fval, mem map[*ssa.Alloc]fval, in s
 		}
 	case *ssa.MakeClosure:
 		if g, ok := x.Fn.(*ssa.Function); ok {
-			env[x] = fval{fn: g, t: x.Type()}
+			var bs []fval
+			for _, b := range x.Bindings {
+				bs = append(bs, f.val(env, b))
+			}
+			env[x] = fval{fn: g, t: x.Type(), bind: bs}
 		}
 	case *ssa.Call:
 		if bi, ok := x.Call.Value.(*ssa.Builtin); ok && (bi.Name() == "max" || bi.Name() == "min") && len(x.Call.Args) >= 1 {
@@ -367,10 +398,16 @@ func (f *folder) evalInstr(env map[ssa.Value]fval, mem map[*ssa.Alloc]fval, in s
 			return
 		}
 		callee := staticCallee(&x.Call)
-		if callee == nil {
-			// call through a known function value?
-			if fv := f.val(env, x.Call.Value); fv.fn != nil && !x.Call.IsInvoke() {
-				callee = fv.fn
+		var bind []fval
+		if !x.Call.IsInvoke() {
+			// a closure (called directly or through a variable): its captured values come along
+			if fv := f.val(env, x.Call.Value); fv.fn != nil {
+				if callee == nil {
+					callee = fv.fn
+				}
+				if callee == fv.fn {
+					bind = fv.bind
+				}
 			}
 		}
 		if callee == nil {
@@ -390,14 +427,50 @@ func (f *folder) evalInstr(env map[ssa.Value]fval, mem map[*ssa.Alloc]fval, in s
 		target := callee
 		if strings.HasSuffix(callee.Name(), "$bound") {
 			target = unbound(callee)
-			as = append([]fval{top}, as...)
+			recv := top
+			if len(bind) == 1 {
+				recv = bind[0]
+			}
+			as = append([]fval{recv}, as...)
+			bind = nil
 		}
-		r, err := f.foldCall(target, as)
+		var shared map[*ssa.Alloc]fval
+		if bind != nil {
+			shared = mem
+		}
+		r, err := f.foldCallEnv(target, as, bind, shared)
 		if err != nil {
 			env[x] = top
 		} else {
 			env[x] = r
 		}
+	case *ssa.Range:
+		if mv, ok := f.val(env, x.X).cv.(*MapV); ok {
+			es := append([]KV{}, mv.Entries...)
+			if f.reverseMaps {
+				for i, j := 0, len(es)-1; i < j; i, j = i+1, j-1 {
+					es[i], es[j] = es[j], es[i]
+				}
+			}
+			f.sawMapRange = true
+			env[x] = fval{iter: &foldIter{entries: es}}
+		} else {
+			env[x] = top
+		}
+	case *ssa.Next:
+		it := f.val(env, x.Iter).iter
+		if it == nil || x.IsString {
+			env[x] = top
+			return
+		}
+		boolT := types.Typ[types.Bool]
+		if it.pos >= len(it.entries) {
+			env[x] = fval{tuple: []fval{{k: constant.MakeBool(false), t: boolT}, top, top}}
+			return
+		}
+		e := it.entries[it.pos]
+		it.pos++
+		env[x] = fval{tuple: []fval{{k: constant.MakeBool(true), t: boolT}, fromVal(e.K), fromVal(e.V)}}
 	case *ssa.Lookup:
 		env[x] = foldLookup(x, f.val(env, x.X), f.val(env, x.Index))
 	case *ssa.Slice:
@@ -872,6 +945,15 @@ func (c *Ctx) globalTable(g *ssa.Global) fval {
 	}
 	val, _, err := c.evalVar(obj)
 	if err != nil {
+		// an initialiser that is a call of a repo function with constant arguments (util.MustNewRing(C, D, ...)): fold the call
+		if r, ok := c.foldInitCall(g, obj); ok {
+			c.globalTabs[g] = r
+			if c.globalRaw == nil {
+				c.globalRaw = map[*ssa.Global]Val{}
+			}
+			c.globalRaw[g] = r.cv
+			return r
+		}
 		return top
 	}
 	r := fromVal(val)
@@ -924,4 +1006,66 @@ func readOnlyAddr(a ssa.Value, depth int) bool {
 		}
 	}
 	return true
+}
+
+
+// foldInitCall: the variable is initialised by `f(consts...)` with f a repo function: fold that call in the package initialiser.
+func (c *Ctx) foldInitCall(g *ssa.Global, obj *types.Var) (fval, bool) {
+	if g.Pkg == nil {
+		return top, false
+	}
+	initFn := g.Pkg.Func("init")
+	if initFn == nil {
+		return top, false
+	}
+	// the store `g = call` in the package initialiser
+	var call *ssa.Call
+	n := 0
+	allInstrs(initFn, func(in ssa.Instruction) {
+		if st, ok := in.(*ssa.Store); ok && st.Addr == ssa.Value(g) {
+			n++
+			v := st.Val
+			for {
+				if ct, ok := v.(*ssa.ChangeType); ok {
+					v = ct.X
+					continue
+				}
+				break
+			}
+			call, _ = v.(*ssa.Call)
+		}
+	})
+	if n != 1 || call == nil {
+		return top, false
+	}
+	callee := staticCallee(&call.Call)
+	if callee == nil || !c.isRepoFunc(callee) {
+		return top, false
+	}
+	// the arguments: constants, or a variadic list of constants
+	var as []fval
+	for _, a := range call.Call.Args {
+		if k, ok := a.(*ssa.Const); ok && k.Value != nil {
+			as = append(as, fval{k: k.Value, t: k.Type()})
+			continue
+		}
+		list, ok := variadicConsts(a)
+		if !ok {
+			return top, false
+		}
+		lv := &ListV{T: a.Type()}
+		var et types.Type
+		if st, ok := a.Type().Underlying().(*types.Slice); ok {
+			et = st.Elem()
+		}
+		for _, v := range list {
+			lv.Elems = append(lv.Elems, &CVal{V: constant.MakeInt64(v), T: et, c: c})
+		}
+		as = append(as, fval{cv: lv, t: a.Type()})
+	}
+	result, err := c.newFolder().foldCall(callee, as)
+	if err != nil || result.cv == nil {
+		return top, false
+	}
+	return result, true
 }
